@@ -317,7 +317,19 @@ class _Enumerator:
         elif isinstance(stmt, ast.Assert):
             # a failing assert is not a behaviour the rules reason about
             yield prefix + [Step("stmt", stmt)], "next", None
-        elif isinstance(stmt, (ast.With, ast.Try, ast.AsyncFor, ast.AsyncWith)) or (
+        elif isinstance(stmt, ast.With):
+            # the context expressions are evaluated (and bound), then the body runs
+            cur = prefix
+            for item in stmt.items:
+                if item.optional_vars is not None:
+                    synth = ast.copy_location(ast.Assign(targets=[item.optional_vars], value=item.context_expr), stmt)
+                else:
+                    synth = ast.copy_location(ast.Expr(value=item.context_expr), stmt)
+                cur = cur + [Step("stmt", synth, origin=stmt)]
+            yield from self._block(stmt.body, cur)
+        elif isinstance(stmt, ast.Try):
+            yield from self._try(stmt, prefix)
+        elif isinstance(stmt, (ast.AsyncFor, ast.AsyncWith)) or (
             hasattr(ast, "TryStar") and isinstance(stmt, ast.TryStar)
         ):
             raise AnalysisError(
@@ -326,6 +338,33 @@ class _Enumerator:
             )
         else:
             yield prefix + [Step("stmt", stmt)], "next", None
+
+    def _try(self, stmt: ast.Try, prefix: list[Step]):
+        """try body completes (then else, then finally) - or a handler runs, entered from the state before the try
+        (what the body did before raising is not assumed); `finally` follows whatever continues."""
+
+        def then_finally(paths):
+            for steps, status, node in paths:
+                if status == "next" and stmt.finalbody:
+                    yield from self._block(stmt.finalbody, steps)
+                else:
+                    yield steps, status, node
+
+        def normal():
+            for steps, status, node in self._block(stmt.body, prefix):
+                if status == "next" and stmt.orelse:
+                    yield from self._block(stmt.orelse, steps)
+                else:
+                    yield steps, status, node
+
+        yield from then_finally(normal())
+        for h in stmt.handlers:
+            marker = ast.copy_location(ast.Expr(value=ast.Constant(f"<except {src(h.type) if h.type is not None else ''}>")), h)
+            entered = prefix + [Step("stmt", marker, origin=stmt)]
+            if h.name:
+                bind = ast.copy_location(ast.Assign(targets=[ast.Name(h.name, ast.Store())], value=ast.Constant(None)), h)
+                entered = entered + [Step("stmt", bind, origin=stmt)]
+            yield from then_finally(self._block(h.body, entered))
 
     def _branch(self, test: ast.expr, value: bool, prefix: list[Step], origin: ast.AST) -> list[Step] | None:
         step = Step("cond", test, value, origin=origin)
